@@ -54,7 +54,48 @@ func (this *zzCanaryCmp) Equals(o Value) bool {
 	return this.A == that.A && v != nil
 }
 `, Expect: []core.CanaryExpect{{Rule: "C20.total", Sub: "zzCanaryCmp.CompareTo"}, {Rule: "C20.total", Sub: "zzCanaryCmp.Equals"},
-		{Rule: "C20.mixed", Sub: "zzCanaryCmp"}, {Rule: "C20.same", Sub: "zzCanaryCmp"}}}}
+		{Rule: "C20.mixed", Sub: "zzCanaryCmp"}, {Rule: "C20.same", Sub: "zzCanaryCmp"}}},
+		{RelDir: "lang/value", Name: "c20keyed", Src: `package value
+
+import (
+	"github.com/whatap/golib/io"
+	"github.com/whatap/golib/util/hmap"
+)
+
+type zzCanaryKeyed struct {
+	table *hmap.StringKeyLinkedMap
+}
+
+func (this *zzCanaryKeyed) GetValueType() byte      { return 98 }
+func (this *zzCanaryKeyed) Write(o *io.DataOutputX) {}
+func (this *zzCanaryKeyed) Read(in *io.DataInputX)  {}
+func (this *zzCanaryKeyed) ToString() string        { return "" }
+func (this *zzCanaryKeyed) Equals(o Value) bool     { return this.CompareTo(o) == 0 }
+
+// walks the receiver's insertion order, never orders the keys of the two operands
+func (this *zzCanaryKeyed) CompareTo(o Value) int {
+	if o == nil || o.GetValueType() != this.GetValueType() {
+		return 1
+	}
+	that := o.(*zzCanaryKeyed)
+	if this.table.Size() != that.table.Size() {
+		return this.table.Size() - that.table.Size()
+	}
+	keys := this.table.Keys()
+	for keys.HasMoreElements() {
+		key := keys.NextString()
+		v1, _ := this.table.Get(key).(Value)
+		v2, _ := that.table.Get(key).(Value)
+		if v1 == nil || v2 == nil {
+			return 1
+		}
+		if c := v1.CompareTo(v2); c != 0 {
+			return c
+		}
+	}
+	return 0
+}
+`, Expect: []core.CanaryExpect{{Rule: "C20.canon", Sub: "zzCanaryKeyed.CompareTo walk"}, {Rule: "C20.canon", Sub: "zzCanaryKeyed.CompareTo keys"}}}}
 }
 
 func valueImplementers(p *core.Program) []*types.Named {
@@ -95,12 +136,13 @@ func valueImplementers(p *core.Program) []*types.Named {
 }
 
 func runC20(p *core.Program, r *core.Report) {
-	r.Explanation = "Totality and lawfulness of Equals/CompareTo of every value type, decided structurally. C20.total: on every path of Equals/CompareTo, each single-result type assertion on the other operand is preceded by the checks that fix its dynamic type (non-nil and equal type code), and results of look-ups in the OTHER container are never asserted without comma-ok (a missing key yields nil). C20.mixed: the mixed-type fallback is a signed difference of the two type codes (a difference of bytes converted afterwards is never negative). C20.same: the same-type branch of every loop-free value type is interpreted over all orderings of its compared fields ({<,=,>}^k): it returns 0 exactly when all fields are equal, reverses sign when the operands are swapped, and Equals is true exactly where CompareTo is 0. C20.helpers: the scalar compare helpers return -1/0/+1 for </=/>, and the slice helpers, interpreted over {nil, empty, one element}^2 x {<,=,>}, return 0 whenever both are empty (a nil payload equals its decoded empty copy), are antisymmetric, and decide elements only through comparisons."
+	r.Explanation = "Totality and lawfulness of Equals/CompareTo of every value type, decided structurally. C20.total: on every path of Equals/CompareTo, each single-result type assertion on the other operand is preceded by the checks that fix its dynamic type (non-nil and equal type code), and results of look-ups in the OTHER container are never asserted without comma-ok (a missing key yields nil). C20.mixed: the mixed-type fallback is a signed difference of the two type codes (a difference of bytes converted afterwards is never negative). C20.same: the same-type branch of every loop-free value type is interpreted over all orderings of its compared fields ({<,=,>}^k): it returns 0 exactly when all fields are equal, reverses sign when the operands are swapped, and Equals is true exactly where CompareTo is 0. C20.helpers: the scalar compare helpers return -1/0/+1 for </=/>, and the slice helpers, interpreted over {nil, empty, one element}^2 x {<,=,>}, return 0 whenever both are empty (a nil payload equals its decoded empty copy), are antisymmetric, and decide elements only through comparisons. C20.canon: the comparison of a keyed container (MapValue, IntMapValue) walks sorted key sequences only and orders the sorted keys of the two operands against each other, so that its sign does not depend on which operand is the receiver or on insertion order (an insertion-order walk with a one-sided missing-key answer returns the same sign in both directions)."
 	r.NotDecided = []string{"transitivity for containers", "content comparison inside MapValue/IntMapValue/ListValue loops beyond totality", "float NaN (unordered) cases"}
 	r.Rule("C20.total", "type assertions in Equals/CompareTo cannot fail: other operand checked first; look-ups in the other container use comma-ok", 38)
 	r.Rule("C20.mixed", "mixed-type comparison is a signed difference of type codes", 18)
 	r.Rule("C20.same", "same-type comparison: 0 iff equal, sign reverses on swap, Equals <=> CompareTo == 0 (all orderings)", 14)
 	r.Rule("C20.sizes", "container Equals/CompareTo reach their element loop only after the two sizes compared equal (a one-sided walk over the receiver's elements cannot see extra elements on the other side)", 6)
+	r.Rule("C20.canon", "comparison of a keyed container walks sorted key sequences and orders the two operands' keys against each other: the result does not depend on which operand is the receiver or on insertion order", 6)
 	r.Rule("C20.fresh", "every value the factory hands out for decoding is freshly allocated: a decoded value is not overwritten by the next decode (it stays equal to what was encoded)", 20)
 	checkFactoryFresh(p, r, "C20.fresh", "lang/value", "CreateValue")
 	r.Rule("C20.width", "a payload written without a length and read back with a fixed one has that width wherever it is stored: a value equals its own decoded encoding", 1)
@@ -112,6 +154,7 @@ func runC20(p *core.Program, r *core.Report) {
 		c20Mixed(p, r, t)
 		c20Same(p, r, t)
 		c20Sizes(p, r, t)
+		c20Canon(p, r, t)
 	}
 	c20Helpers(p, r)
 }
@@ -739,17 +782,58 @@ func c20Sizes(p *core.Program, r *core.Report, t *types.Named) {
 		}
 		// a walk over the OTHER operand's elements as well (a two-sided comparison) needs no size test
 		twoSided := false
+		// locals holding an enumeration (or a collected sequence) of the other operand's elements
+		otherSeq := map[types.Object]bool{}
 		ast.Inspect(fi.Decl.Body, func(n ast.Node) bool {
-			switch v := n.(type) {
-			case *ast.RangeStmt:
-				if root := rootOf(v.X); root != nil && aliases[info.ObjectOf(root)] {
-					twoSided = true
+			as, ok := n.(*ast.AssignStmt)
+			if !ok || len(as.Lhs) != len(as.Rhs) {
+				return true
+			}
+			for i, rhs := range as.Rhs {
+				v, ok := ast.Unparen(rhs).(*ast.CallExpr)
+				if !ok {
+					continue
 				}
-			case *ast.CallExpr:
 				if sel, ok := v.Fun.(*ast.SelectorExpr); ok && len(v.Args) == 0 {
 					if root := rootOf(sel.X); root != nil && aliases[info.ObjectOf(root)] {
 						if rt := info.TypeOf(v); rt != nil && !isBasicType(rt) && !c20SizeName.MatchString(sel.Sel.Name) && sel.Sel.Name != "GetValueType" {
-							twoSided = true // that.Keys(), that.table.Entries(): an enumeration of the other side
+							if id, ok := as.Lhs[i].(*ast.Ident); ok {
+								if o := info.ObjectOf(id); o != nil {
+									otherSeq[o] = true // that.Keys(), that.table.Entries(), that.sortedKeys()
+								}
+							}
+						}
+					}
+				}
+			}
+			return true
+		})
+		isOtherSeq := func(e ast.Expr) bool {
+			root := rootOf(e)
+			if root == nil {
+				return false
+			}
+			o := info.ObjectOf(root)
+			return aliases[o] || otherSeq[o]
+		}
+		ast.Inspect(fi.Decl.Body, func(n ast.Node) bool {
+			switch v := n.(type) {
+			case *ast.RangeStmt:
+				// a loop that runs over all of the other operand's elements
+				if isOtherSeq(v.X) {
+					twoSided = true
+				}
+				if call, ok := ast.Unparen(v.X).(*ast.CallExpr); ok {
+					if sel, ok := call.Fun.(*ast.SelectorExpr); ok && isOtherSeq(sel.X) {
+						twoSided = true
+					}
+				}
+			case *ast.ForStmt:
+				// for en.HasMoreElements() { … } with en an enumeration of the other operand
+				if call, ok := ast.Unparen(v.Cond).(*ast.CallExpr); ok && v.Cond != nil {
+					if sel, ok := call.Fun.(*ast.SelectorExpr); ok && len(call.Args) == 0 {
+						if id, ok := sel.X.(*ast.Ident); ok && otherSeq[info.ObjectOf(id)] {
+							twoSided = true
 						}
 					}
 				}
